@@ -1,4 +1,90 @@
+(* C19/Property.v — property theorems only.  `run w t0 h` is the trace (operation, output, view
+   after the operation) of the model for the history h of operations started at time t0 in the
+   world w (preferred SLO bindings, SLO endpoints of every IdP); `spec_cl cl` says that the clause
+   cl of the reference monitor C19.Spec holds at every step of a trace. *)
+From Coq Require Import List Bool Arith ZArith.
 From Verif Require Import C19.Model C19.Spec C19.Proofs.
-Theorem c19_placeholder : True.
-Proof. exact placeholder. Qed.
-Print Assumptions c19_placeholder.
+
+(* isolation: whatever is returned for (subject, issuer) was stored for exactly that pair and the
+   subject has had a session ever since; a subject counts as logged in only on such information *)
+Theorem c19_isolation : forall w t0 h, spec_cl cl_iso w t0 (run w t0 h).
+Proof. exact isolation_holds. Qed.
+Print Assumptions c19_isolation.
+
+(* expiry: with the expiry check on, only until the not-on-or-after time it was stored with *)
+Theorem c19_expiry : forall w t0 h, spec_cl cl_exp w t0 (run w t0 h).
+Proof. exact expiry_holds. Qed.
+Print Assumptions c19_expiry.
+
+(* a Response that does not verify stores nothing *)
+Theorem c19_only_verified_response_stored : forall w t0 h, spec_cl cl_accept w t0 (run w t0 h).
+Proof. exact accept_holds. Qed.
+Print Assumptions c19_only_verified_response_stored.
+
+(* no information after logout: whenever a logout is reported complete the subject has no session
+   (and the monitor of c19_isolation has forgotten everything about a subject without session) *)
+Theorem c19_no_info_after_logout : forall w t0 h, spec_cl cl_after w t0 (run w t0 h).
+Proof. exact after_holds. Qed.
+Print Assumptions c19_no_info_after_logout.
+
+(* a LogoutRequest ends the session of the current subject only if it names it, touches no one else *)
+Theorem c19_logout_request_only_current_subject : forall w t0 h, spec_cl cl_request w t0 (run w t0 h).
+Proof. exact request_holds. Qed.
+Print Assumptions c19_logout_request_only_current_subject.
+
+(* a LogoutResponse that does not answer a pending request changes nothing — outside the finding classes *)
+Theorem c19_response_needs_pending : forall w t0 h,
+  guard w t0 (run w t0 h) -> spec_cl cl_pending w t0 (run w t0 h).
+Proof. exact pending_holds. Qed.
+Print Assumptions c19_response_needs_pending.
+
+(* the session ends exactly when the last involved IdP has answered or the deadline has passed —
+   outside the finding classes *)
+Theorem c19_session_ends_iff_last_answer_or_deadline : forall w t0 h,
+  guard w t0 (run w t0 h) -> spec_cl cl_ends w t0 (run w t0 h).
+Proof. exact ends_holds. Qed.
+Print Assumptions c19_session_ends_iff_last_answer_or_deadline.
+
+(* C19, whole property, for every world, start time and history outside the finding classes *)
+Theorem c19_property : forall w t0 h, guard w t0 (run w t0 h) -> spec w t0 (run w t0 h).
+Proof. exact guarded_spec. Qed.
+Print Assumptions c19_property.
+
+(* sharper, unguarded: on EVERY history every step before the first trigger of a finding class
+   satisfies every clause (this is what the correspondence's classifier relies on) *)
+Theorem c19_until_first_trigger : forall w t0 h, spec_until w t0 (run w t0 h).
+Proof. exact until_holds. Qed.
+Print Assumptions c19_until_first_trigger.
+
+(* the boolean monitor that Coq evaluates on the implementation's recorded trace is the stated property *)
+Theorem c19_spec_reflect : forall w t0 tr, spec_b w t0 tr = true <-> spec w t0 tr.
+Proof. exact spec_b_iff. Qed.
+Print Assumptions c19_spec_reflect.
+
+(* the property is the conjunction of its clauses *)
+Theorem c19_spec_clauses : forall w t0 tr,
+  spec w t0 tr <->
+  spec_cl cl_iso w t0 tr /\ spec_cl cl_exp w t0 tr /\ spec_cl cl_accept w t0 tr /\ spec_cl cl_after w t0 tr
+  /\ spec_cl cl_request w t0 tr /\ spec_cl cl_pending w t0 tr /\ spec_cl cl_ends w t0 tr.
+Proof. exact spec_split. Qed.
+Print Assumptions c19_spec_clauses.
+
+(* the code as it is violates the property in each finding class (faithful model):
+   1 SOAP global logout does no bookkeeping, 2 an answer from another party than the one asked is
+   honoured, 3 the answer to a request of an abandoned logout is honoured (ends a new session) *)
+Theorem c19_soap_refuted : exists w t0 h, first_trigger w t0 (run w t0 h) = 1 /\ ~ spec w t0 (run w t0 h).
+Proof. exact soap_refuted. Qed.
+Print Assumptions c19_soap_refuted.
+
+Theorem c19_wrong_party_refuted : exists w t0 h, first_trigger w t0 (run w t0 h) = 2 /\ ~ spec w t0 (run w t0 h).
+Proof. exact wrong_party_refuted. Qed.
+Print Assumptions c19_wrong_party_refuted.
+
+Theorem c19_stale_answer_refuted : exists w t0 h, first_trigger w t0 (run w t0 h) = 3 /\ ~ spec w t0 (run w t0 h).
+Proof. exact stale_refuted. Qed.
+Print Assumptions c19_stale_answer_refuted.
+
+(* the guard is satisfiable by a complete two-IdP logout that ends the session (non-vacuity) *)
+Theorem c19_guard_satisfiable : guard w_front 1000 (run w_front 1000 h_flow) /\ spec w_front 1000 (run w_front 1000 h_flow).
+Proof. exact (conj flow_guard flow_spec). Qed.
+Print Assumptions c19_guard_satisfiable.
